@@ -532,11 +532,39 @@ def castVal? (T : DTables) (d : DType) (r : Rat) : Option Rat :=
 def padShape (ndim : Nat) (shape : List Nat) : List Nat :=
   List.replicate (ndim - shape.length) 1 ++ shape
 
-/-- array view (shape, dtype, values, is-ndarray) of an input, if it has one -/
+/-- `space.is_power_space`: all components equal the first -/
+def Space.isPower : Space → Bool
+  | .prod (s :: l) _ _ => l.all (fun t => t.eqI s)
+  | .prod [] _ _ => true
+  | _ => false
+
+mutual
+/-- array view (is-ndarray, shape, dtype, values) of an input, if it has one.  Since /repo
+7818edc (`ProductSpaceElement.__array__(dtype)`) an element of a POWER space has one:
+`asarray()` stacks the parts into a NEW array of shape `(len,) + part shape` (so nothing is
+shared with the input); for a product space that is not a power space `asarray` raises
+`ValueError`. -/
 def Inp.view? : Inp → Option (Bool × List Nat × DType × List Rat)
   | .elem _ sh dt v => some (true, sh, dt, v)
   | .arr nd sh dt v => some (nd, sh, dt, v)
-  | _ => none
+  | .pelem sp ps =>
+      if sp.isPower then
+        match Inp.viewL ps with
+        | some (n, sh, dt, v) => some (false, n :: sh, dt, v)
+        | none => none
+      else none
+  | .seq _ => none
+/-- the stacked view of the parts: number of parts, common shape and dtype, values in order -/
+def Inp.viewL : List Inp → Option (Nat × List Nat × DType × List Rat)
+  | [] => none
+  | [p] => match p.view? with
+      | some (_, sh, dt, v) => some (1, sh, dt, v)
+      | none => none
+  | p :: q :: ps => match p.view?, Inp.viewL (q :: ps) with
+      | some (_, sh, dt, v), some (n, sh', dt', v') =>
+          if sh = sh' ∧ dt = dt' then some (n + 1, sh, dt, v ++ v') else none
+      | _, _ => none
+end
 
 /-- `NumpyTensorSpace.element(inp, order=…)` for `inp is not None` (`forced`: an `order` was
 given): `inp in self and order is None → inp`; otherwise `np.array(inp, copy=False,
@@ -544,9 +572,7 @@ dtype=self.dtype, ndmin=self.ndim, order=order)` and the shape test. -/
 def TSpace.element (T : DTables) (S : TSpace) (forced : Bool) (inp : Inp) : Res :=
   if (Space.tensor S).contains inp.space? && !forced then .same
   else match inp.view? with
-    | none => (match inp with
-        | .pelem _ _ => .errType   -- `ProductSpaceElement.__array__()` accepts no `dtype`
-        | _ => .errValue)          -- ragged sequence: NumPy raises ValueError
+    | none => .errValue   -- ragged sequence / element of a non-power product space: ValueError
     | some (nd, sh, dt, v) =>
       if padShape S.shape.length sh = S.shape then
         match v.mapM (castVal? T S.dtype) with
@@ -873,11 +899,16 @@ def boxMem : List Rat → List Rat → List Rat → Bool
   | l :: lo, h :: hi, x :: p => decide (l ≤ x) && decide (x ≤ h) && boxMem lo hi p
   | _, _, _ => true
 
-/-- `np.array(x, dtype=float)` on one scalar as far as it matters for membership: a real number
-converts; a PYTHON `complex` raises `TypeError`; a NUMPY complex scalar is converted with a
-`ComplexWarning`, its imaginary part DISCARDED (finding C20-F13); `None` becomes NaN (every
-comparison is then `False`) and text raises `ValueError` — both end in `False`. -/
-def Scalar.floatConv? : Scalar → Option Rat
+/-- Conversion of one scalar by `IntervalProd.__contains__` (since /repo 1a77968, the repair of
+C20-F13: `if np.iscomplexobj(other): return False`, then `np.array(other, dtype=float)`): a real
+number converts; EVERY complex value — Python `complex` (`TypeError` before the repair) or
+NumPy complex scalar — is rejected; `None` becomes NaN (every comparison is then `False`) and
+text raises `ValueError` — both end in `False`. -/
+def Scalar.floatConv? (s : Scalar) : Option Rat := s.real?
+
+/-- OLD variant (before 1a77968), kept for the sensitivity theorem only, not executed: a NUMPY
+complex scalar was converted with a `ComplexWarning`, its imaginary part DISCARDED. -/
+def Scalar.floatConvOld? : Scalar → Option Rat
   | .cplx re _ true => some re
   | s => s.real?
 
@@ -894,6 +925,15 @@ def intervalMem (lo hi : List Rat) : Val → Bool
       | some x => decide (lo.length = 1) && boxMem lo hi [x]
       | none => false
   | .tuple vs => match vs.mapM Val.coord? with
+      | some p => decide (p.length = lo.length) && boxMem lo hi p
+      | none => false
+
+/-- OLD `IntervalProd.__contains__` (before 1a77968), for the sensitivity theorem only. -/
+def intervalMemOld (lo hi : List Rat) : Val → Bool
+  | .sc s => match s.floatConvOld? with
+      | some x => decide (lo.length = 1) && boxMem lo hi [x]
+      | none => false
+  | .tuple vs => match vs.mapM (fun v => match v with | .sc s => s.floatConvOld? | .tuple _ => none) with
       | some p => decide (p.length = lo.length) && boxMem lo hi p
       | none => false
 
